@@ -28,9 +28,14 @@ type MutRec struct {
 	Key       p.Key
 	Label     string
 	Delivered bool   // passed the watch predicates, i.e. reconciled into an event
-	Disp      string // filtered (watch predicate) / dropped (relevance predicate said no) / relevant
-	Batch     int
+	// filtered (watch predicate / name filter) / control (handled by the handler's filter callback only; kind unknown to
+	// the processor) / swallowed (kind known to the processor, but the handler did not hand the event to it) /
+	// dropped (relevance predicate said no) / relevant
+	Disp  string
+	Batch int
 }
+
+var dispRank = map[string]int{"filtered": 0, "control": 1, "swallowed": 2, "dropped": 3, "relevant": 4}
 
 func (m MutRec) Cause() string {
 	s := strings.ToLower(m.Key.Kind) + "-" + m.Op + "-" + m.Disp
@@ -75,7 +80,10 @@ type Result struct {
 	CPs                   []Checkpoint
 	Fail                  int // index of the first failing checkpoint, -1 if none
 	Panic                 string
-	Err                   string
+	// PanicInCapture: the real handler panicked while capturing the events of a batch (parseAndCaptureEvent, a filter
+	// callback, changeTrackingUpdater.Upsert/Delete) — before Process/BuildGraph was reached
+	PanicInCapture bool
+	Err            string
 	KeyIDs                map[p.Key]int
 	Nondet, NondetSkipped int
 	ctrl                  *Ctrl // the long-lived controller at the end of the run
@@ -163,12 +171,15 @@ func (rn *Runner) startOrd(w *World, res *Result, permute bool) (*Ctrl, [2]map[s
 	firstFiles := [2]map[string]string{ff, ft}
 	var replay events.EventBatch
 	for _, k := range w.Keys() {
-		if passCreate(rn.Watches[k.Kind], w.objs[k]) {
+		// one Create notification per controller of the kind
+		for i := deliveries(rn.Watches[k.Kind], nil, w.objs[k]); i > 0; i-- {
 			e, err := c.Reconcile(k)
 			if err != nil {
 				return nil, none, err
 			}
-			replay = append(replay, e)
+			if e != nil {
+				replay = append(replay, e)
+			}
 		}
 	}
 	if permute {
@@ -205,7 +216,7 @@ func (rn *Runner) Run(h *History) (res *Result) {
 		return res
 	}
 	if c.Panic != "" {
-		res.Panic = c.Panic
+		res.Panic, res.PanicInCapture = c.Panic, c.PanicInCapture
 		return res
 	}
 	res.ctrl = c
@@ -221,21 +232,30 @@ func (rn *Runner) Run(h *History) (res *Result) {
 		obs := c.Handle(pending)
 		res.Batches = append(res.Batches, BatchRec{Obs: obs, CT: c.proc.lastCT})
 		b := len(res.Batches) - 1
-		// attribute the relevance verdicts to the mutations (events are 1:1 with delivered mutations)
+		// attribute what became of each event to its mutation (a mutation seen by several controllers has several events)
 		for i, mi := range pendingMuts {
 			res.Muts[mi].Batch = b
-			if i < len(obs.Events) {
-				changed := obs.Events[i].Changed()
-				if changed {
-					res.Muts[mi].Disp = "relevant"
-				} else {
-					res.Muts[mi].Disp = "dropped"
-				}
+			if i >= len(obs.In) {
+				continue
+			}
+			in, d := obs.In[i], ""
+			switch {
+			case in.Fwd && in.Ev.Changed():
+				d = "relevant"
+			case in.Fwd:
+				d = "dropped"
+			case handlerOnlyKinds[in.Kind]:
+				d = "control"
+			default:
+				d = "swallowed"
+			}
+			if dispRank[d] > dispRank[res.Muts[mi].Disp] {
+				res.Muts[mi].Disp = d
 			}
 		}
 		pending, pendingMuts = nil, nil
 		if c.Panic != "" {
-			res.Panic = c.Panic
+			res.Panic, res.PanicInCapture = c.Panic, c.PanicInCapture
 			return false
 		}
 		return true
@@ -291,7 +311,7 @@ func (rn *Runner) Run(h *History) (res *Result) {
 				return false
 			}
 			if fc.Panic != "" {
-				res.Panic = "fresh controller: " + fc.Panic
+				res.Panic, res.PanicInCapture = "fresh controller: "+fc.Panic, fc.PanicInCapture
 				return false
 			}
 			freshes = append(freshes, snapshotOf(fc, w))
@@ -357,7 +377,7 @@ func (rn *Runner) Run(h *History) (res *Result) {
 				return res
 			}
 			if c.Panic != "" {
-				res.Panic = c.Panic
+				res.Panic, res.PanicInCapture = c.Panic, c.PanicInCapture
 				return res
 			}
 			lastCPBatch = len(res.Batches) - 1
@@ -400,13 +420,23 @@ func (rn *Runner) Run(h *History) (res *Result) {
 			m.Disp = "filtered"
 			res.Muts = append(res.Muts, m)
 			if m.Delivered {
-				e, err := c.Reconcile(op.Key)
-				if err != nil {
-					res.Err = err.Error()
-					return res
+				got := 0
+				for i := deliveries(ws, oldObj, newObj); i > 0; i-- {
+					e, err := c.Reconcile(op.Key)
+					if err != nil {
+						res.Err = err.Error()
+						return res
+					}
+					if e == nil {
+						continue // the controller's namespaced-name filter ignores this object
+					}
+					got++
+					pending = append(pending, e)
+					pendingMuts = append(pendingMuts, len(res.Muts)-1)
 				}
-				pending = append(pending, e)
-				pendingMuts = append(pendingMuts, len(res.Muts)-1)
+				if got == 0 {
+					res.Muts[len(res.Muts)-1].Delivered = false
+				}
 			}
 		}
 		_ = last
@@ -462,7 +492,8 @@ func (res *Result) Signature() string {
 		}
 	}
 	for i := cp.MutTo - 1; i >= 0; i-- {
-		if m := res.Muts[i]; m.Disp == "filtered" {
+		// neither a watch-filtered mutation nor one the handler kept from the processor ever reaches the store
+		if m := res.Muts[i]; m.Disp == "filtered" || m.Disp == "swallowed" {
 			return res.rootCause(m)
 		}
 	}
